@@ -569,6 +569,9 @@ type run struct {
 
 	// what the peer has sent
 	gReplies    map[string]bool    // "payload|flag" of every global reply pushed
+	gAnswered   map[int]bool       // local global requests the peer has answered
+	cAnswered   map[int]bool       // local channel requests the peer has answered
+	gWaiting    map[int]bool       // local want-reply global requests whose call has not returned
 	cReplies    map[uint32]*[2]int // local id -> pushed [failure, success] channel replies
 	myIDAddr    map[uint32]uint32  // sender id handed out in a confirmation -> local id it was addressed to
 	myIDUsed    map[uint32]int     // sender id -> local open that applied it (+1)
@@ -1178,7 +1181,7 @@ func (r *run) peerOp(i int, op PeerOp) {
 	}
 }
 
-func (r *run) pushGlobalReply(ok bool, payload string, stale bool) {
+func (r *run) pushGlobalReply(ok bool, payload string, stale bool) bool {
 	var b []byte
 	if ok {
 		b = ssh.Marshal(&msgRequestSuccess{Data: []byte(payload)})
@@ -1192,7 +1195,9 @@ func (r *run) pushGlobalReply(ok bool, payload string, stale bool) {
 		} else if stale {
 			rt.Fault("peer-unsolicited-global-reply")
 		}
+		return true
 	}
+	return false
 }
 
 // peerRx is the peer's receive side: it answers what the mux sends.
@@ -1294,7 +1299,9 @@ func (r *run) peerHandle(m *mpkt) {
 	case 80:
 		// "lg:<id>" with payload [ok, withhold, number of replies, flavour of the surplus replies]
 		if id, ok := atoiSuffix(m.name, "lg:"); ok && m.want && len(m.data) >= 4 && m.data[1] == 0 {
-			r.pushGlobalReply(m.data[0] == 1, fmt.Sprintf("ans:%d", id), false)
+			if r.pushGlobalReply(m.data[0] == 1, fmt.Sprintf("ans:%d", id), false) {
+				r.gAnswered[id] = true
+			}
 			for k := 1; k < int(m.data[2]); k++ {
 				r.pushGlobalReply(m.data[3] == 1, fmt.Sprintf("surplus:%d:%d", id, k), true)
 			}
@@ -1305,7 +1312,7 @@ func (r *run) peerHandle(m *mpkt) {
 	case 98:
 		if id, ok := atoiSuffix(m.name, "q:"); ok && m.want && len(m.data) >= 4 && m.data[1] == 0 {
 			if L, _, ok := r.rcptLocal(m.rcpt); ok {
-				reply := func(flag bool) {
+				reply := func(flag bool) bool {
 					var b []byte
 					if flag {
 						b = ssh.Marshal(&msgChannelSuccess{Recipient: L})
@@ -1314,9 +1321,13 @@ func (r *run) peerHandle(m *mpkt) {
 					}
 					if r.push(b) {
 						r.noteCReply(L, flag)
+						return true
 					}
+					return false
 				}
-				reply(m.data[0] == 1)
+				if reply(m.data[0] == 1) {
+					r.cAnswered[id] = true
+				}
 				for k := 1; k < int(m.data[2]); k++ {
 					reply(m.data[3] == 1)
 					rt.Fault("peer-surplus-channel-reply")
@@ -1509,7 +1520,11 @@ func (r *run) globalSend(t *ltask, want, ok, withhold, strict bool, multi int, s
 	id := r.nextReq
 	r.nextReq++
 	t.doing("global-sendrequest", fmt.Sprintf("Conn.SendRequest lg:%d want-reply=%v", id, want))
+	if want {
+		r.gWaiting[id] = true
+	}
 	gotOK, reply, err := r.conn.SendRequest(fmt.Sprintf("lg:%d", id), want, []byte{boolByte(ok), boolByte(withhold), byte(multi), boolByte(surplus)})
+	delete(r.gWaiting, id)
 	rt.Event("global request lg:%d want=%v returned ok=%v reply=%q err=%v", id, want, gotOK, reply, err != nil)
 	if err != nil || !want {
 		return
@@ -1532,7 +1547,11 @@ func (r *run) chanSend(t *ltask, lc *lchan, want, ok, withhold, strict bool, mul
 	r.nextReq++
 	t.doing("channel-sendrequest", fmt.Sprintf("Channel.SendRequest q:%d want-reply=%v on %s", id, want, lc.info))
 	t.on = lc.info
+	if want {
+		r.gWaiting[id] = true
+	}
 	gotOK, err := lc.ch.SendRequest(fmt.Sprintf("q:%d", id), want, []byte{boolByte(ok), boolByte(withhold), byte(multi), boolByte(surplus)})
+	delete(r.gWaiting, id)
 	t.on = nil
 	rt.Event("channel request q:%d on %s want=%v returned ok=%v err=%v", id, lc.info, want, gotOK, err != nil)
 	if err != nil || !want {
@@ -1659,7 +1678,7 @@ func (r *run) localTask(ti int, lt LocalTask) {
 func runHarness(c *core.Ctx, scnAny any) {
 	scn := scnAny.(*Scenario)
 	r := &run{c: c, scn: scn,
-		gReplies: map[string]bool{}, cReplies: map[uint32]*[2]int{}, myIDAddr: map[uint32]uint32{}, myIDUsed: map[uint32]int{},
+		gReplies: map[string]bool{}, gAnswered: map[int]bool{}, cAnswered: map[int]bool{}, gWaiting: map[int]bool{}, cReplies: map[uint32]*[2]int{}, myIDAddr: map[uint32]uint32{}, myIDUsed: map[uint32]int{},
 		confirmsTo: map[uint32]int{}, freed: map[uint32]int{}, foreignTo: map[uint32]int{}, strayClose: map[uint32]int{}, dupIDs: map[uint32]bool{}, failMsgAddr: map[string]uint32{}, failMsgUsed: map[string]bool{}}
 	r.p = &pconn{r: r}
 	c.Sim.OnIdle = r.onIdle
@@ -1779,6 +1798,19 @@ func (r *run) alive() bool { return !r.p.dead() }
 func (r *run) idleChecks() bool {
 	if !r.alive() || len(r.p.toMux) > 0 || !r.p.inRead {
 		return true
+	}
+	// a reply the peer sent to a request that is waiting for it reaches that
+	// request: the mux has consumed everything the peer sent, so a call that
+	// is still blocked although its own answer went out lost that answer
+	for id := 0; id < r.nextReq; id++ {
+		if r.gWaiting[id] && r.cAnswered[id] {
+			r.violate("channel-reply-lost", "Channel.SendRequest q:%d (want-reply) is still blocked although the peer answered it on that channel, the connection is up and the mux has consumed everything the peer sent", id)
+			return false
+		}
+		if r.gWaiting[id] && r.gAnswered[id] {
+			r.violate("global-reply-lost", "SendRequest lg:%d (want-reply) is still blocked although the peer answered it, the connection is up and the mux has consumed everything the peer sent: the reply was not delivered to the request that was waiting for it", id)
+			return false
+		}
 	}
 	if r.dupPushed > 0 {
 		r.violate("duplicate-open-response-accepted", "the peer sent a second open response for an already confirmed channel (%s) and the connection is still up after the mux consumed it (system idle, nothing unread): the duplicate was not rejected", r.dupDesc)
